@@ -3,7 +3,7 @@ independently of the renderer's state machine.  The Lean theorems in hv/lean/HV/
 C07.lean relate these to `rtag`/`rlist`."""
 from ..speclang import adt, spec, abstract, prim, Str, Int, Nat, Bool
 from .strings import ind, rep
-from .render import (escT, escA, isVoid, noEsc, renderAttr, attrFold, isMeta, nonMeta, closeT,
+from .render import (escT, escA, isVoid, noEsc, renderAttr, attrFold, isMeta, nonMeta, closeT, Plain, RawV,
                      Txt, Raw, Md, Rp, Ob, El, NNil, NCons, ANil, ACons)
 
 adt(StrList=dict(SNil={}, SCons=dict(hd=Str, tl="StrList")))
@@ -229,3 +229,37 @@ def sibLines(e: Bool, l: "NodeList", k: Nat, run: "OptStr") -> "StrList":
             if isBlock(c):
                 return sappend(optL(run), sappend(lines(c, k), sibLines(e, rest, k, NoStr())))
             return sibLines(e, rest, k, SomeStr(runStart(run, k) + flat(e, c)))
+
+
+# ---------------------------------------------------------------------------------------------------
+# C01 domain: trees of ordinary elements (Bool version used to restrict refuted obligations to the domain)
+# ---------------------------------------------------------------------------------------------------
+@spec
+def plainAttrsB(a: "AttrList") -> Bool:
+    match a:
+        case ANil():
+            return True
+        case ACons(k, Plain(s), tl):
+            return plainAttrsB(tl)
+        case ACons(k, RawV(s), tl):
+            return False
+
+
+@spec
+def ordTree(t: "Node") -> Bool:
+    match t:
+        case El(n, ws, a, kids):
+            return (not noEsc(n)) and plainAttrsB(a) and ordTreeL(kids)
+        case Txt(s):
+            return True
+        case _:
+            return False
+
+
+@spec
+def ordTreeL(l: "NodeList") -> Bool:
+    match l:
+        case NNil():
+            return True
+        case NCons(c, r):
+            return ordTree(c) and ordTreeL(r)
